@@ -35,8 +35,10 @@ echo "err-$n" 1>&2
 echo "E $W ${{code:-0}}" >> {log}
 # plan code 9: the step's own process dies by a signal (no exit status at all)
 if [ "${{code:-0}}" = "9" ]; then kill -9 $$; fi
-exit ${{code:-0}}
+{last}
 '''
+# how the script ends: an explicit exit, or a last command whose status is the script's status
+LAST = ["exit ${code:-0}", "( exit ${code:-0} )", "sh -c \"exit ${code:-0}\""]
 
 
 def gen_study(rng, root):
@@ -58,7 +60,7 @@ def gen_study(rng, root):
                 dep.append(p)
             elif r < 0.45 and params:
                 dep.append(p + "_*")
-        cmd = SCRIPT.format(log=log, plan=plan)
+        cmd = SCRIPT.format(log=log, plan=plan, last=rng.choice(LAST))
         if params and rng.random() < 0.6:
             cmd = "# uses $(%s)\n" % rng.choice(list(params)) + cmd
         run = {"cmd": cmd}
